@@ -88,31 +88,45 @@ impl Model {
     }
 }
 
-fn run_history(hist: &[Cmd], interactive: bool) -> (String, vsh::Run) {
+/// Start-up arguments: `-i` for an interactive shell; monitor is on by default iff interactive,
+/// `-m` / `+m` is given when the case wants it otherwise.
+fn argv_for(interactive: bool, monitor: bool) -> Vec<String> {
+    let mut v = vec!["yash".to_string()];
+    if interactive {
+        v.push("-i".into());
+    }
+    if monitor != interactive {
+        v.push(if monitor { "-m".into() } else { "+m".into() });
+    }
+    v.push("-s".into());
+    v
+}
+
+fn run_history(hist: &[Cmd], interactive: bool, monitor: bool) -> (String, vsh::Run) {
     let mut script = String::from("snap 0\n");
     for (i, c) in hist.iter().enumerate() {
         script.push_str(&format!("{}\nsnap {}\n", text(c), i + 1));
     }
     let mut setup = Setup::script("");
-    setup.argv = if interactive { vec!["yash".into(), "-i".into(), "-s".into()] } else { vec!["yash".into(), "-s".into()] };
+    setup.argv = argv_for(interactive, monitor);
     setup.stdin = Some(script.clone().into_bytes());
     let r = vsh::run_once(&setup, &Default::default());
     (script, r)
 }
 
-fn judge(ctx: &Ctx, hist: &[Cmd], interactive: bool) -> bool {
+fn judge(ctx: &Ctx, hist: &[Cmd], interactive: bool, monitor_at_start: bool) -> bool {
     // a non-interactive shell exits when `exec` fails: nothing to compare afterwards
     if !interactive && hist.iter().any(|c| matches!(c, Cmd::ExecFails)) {
         return true;
     }
-    let (script, r) = run_history(hist, interactive);
-    let case = json!({"part": "d", "script": script, "interactive": interactive});
+    let (script, r) = run_history(hist, interactive, monitor_at_start);
+    let case = json!({"part": "d", "script": script, "interactive": interactive, "monitor_at_start": monitor_at_start});
     if r.panic.is_some() || !matches!(r.end, End::Exited(_)) {
         ctx.violation("c11:set-trap-history-abnormal-end", &format!("{:?} {:?}", r.end, r.panic), case);
         return false;
     }
     let tr = r.all_trace();
-    let mut m = Model { interactive, monitor: interactive, noclobber: false, user: BTreeMap::new() };
+    let mut m = Model { interactive, monitor: monitor_at_start, noclobber: false, user: BTreeMap::new() };
     for step in 0..=hist.len() {
         if step > 0 {
             match hist[step - 1] {
@@ -180,7 +194,7 @@ pub fn replay(case: &serde_json::Value) -> bool {
     let Some(script) = case["script"].as_str() else { return false };
     let interactive = case["interactive"].as_bool().unwrap_or(true);
     let mut setup = Setup::script("");
-    setup.argv = if interactive { vec!["yash".into(), "-i".into(), "-s".into()] } else { vec!["yash".into(), "-s".into()] };
+    setup.argv = argv_for(interactive, case["monitor_at_start"].as_bool().unwrap_or(interactive));
     setup.stdin = Some(script.as_bytes().to_vec());
     let r = vsh::run_once(&setup, &Default::default());
     println!("script (interactive={interactive}):\n{script}\nend={:?} stderr={:?}", r.end, r.stderr);
@@ -208,9 +222,9 @@ pub fn part_d(ctx: &Ctx, samples: &Samples) -> (u64, u64) {
         idx.resize(depth, 0);
         loop {
             let hist: Vec<Cmd> = idx.iter().map(|i| cmds[*i]).collect();
-            for interactive in [true, false] {
-                let _g = case_guard(format!("{:?} interactive={interactive}", hist.iter().map(text).collect::<Vec<_>>()));
-                judge(ctx, &hist, interactive);
+            for (interactive, monitor) in [(true, true), (false, false), (false, true), (true, false)] {
+                let _g = case_guard(format!("{:?} interactive={interactive} monitor={monitor}", hist.iter().map(text).collect::<Vec<_>>()));
+                judge(ctx, &hist, interactive, monitor);
                 runs.fetch_add(1, Relaxed);
                 steps.fetch_add(depth as u64 + 1, Relaxed);
             }
